@@ -12,4 +12,4 @@ rc=$?
 grep -E "violated|VIOLATION|KNOWN|^check " "$out/log" | cut -c1-400 | head -8
 case $rc in 0) r=MISSED;; 1) r=CAUGHT;; *) r="ERROR(exit $rc)"; tail -5 "$out/log";; esac
 echo "MUTANT $(basename "$patch") $prop: $r"
-git -C /repo worktree remove --force "$wt"; rm -rf "$out"
+git -C /repo worktree remove --force "$wt"; cp "$out/log" /tmp/last_mutant.log 2>/dev/null; rm -rf "$out"
